@@ -81,6 +81,8 @@ type interpreter struct {
 	clock   int64
 	depth   int
 	race    *raceState
+	curExtFn *ssa.Function
+	skipExt bool // next callSSA runs the body even if an intrinsic is registered
 }
 
 type deferred struct {
@@ -119,6 +121,20 @@ func (fr *frame) site() string {
 		return fr.fn.String() + "/" + fr.block.String()
 	}
 	return fr.fn.String()
+}
+
+// stack returns the interpreted call chain (innermost first).
+func (fr *frame) stack() string {
+	var sb strings.Builder
+	n := 0
+	for f := fr; f != nil && n < 12; f = f.caller {
+		if n > 0 {
+			sb.WriteString(" < ")
+		}
+		sb.WriteString(f.fn.String())
+		n++
+	}
+	return sb.String()
 }
 
 func shortFile(f string) string {
@@ -745,17 +761,14 @@ func callSSA(i *interpreter, caller *frame, callpos token.Pos, fn *ssa.Function,
 				return call(i, caller, callpos, st, args)
 			}
 		}
-		if ext := externals[name]; ext != nil {
+		if ext := externals[name]; ext != nil && !i.skipExt {
 			if i.mode&EnableTracing != 0 {
 				fmt.Fprintln(os.Stderr, "\t(external)")
 			}
-			if caller != nil {
-				fr.cur = caller.cur
-				fr.block = caller.block
-			}
-			fr.caller = caller
+			i.curExtFn = fn
 			return ext(frameFor(fr, caller), args)
 		}
+		i.skipExt = false
 		if fn.Synthetic == "package initializer" {
 			pkg := fn.Pkg
 			if i.inited[pkg] {
@@ -767,7 +780,7 @@ func callSSA(i *interpreter, caller *frame, callpos token.Pos, fn *ssa.Function,
 			i.inited[pkg] = true
 		}
 		if fn.Blocks == nil {
-			panic(unsupported("no code and no intrinsic for function %s (called at %s)", name, caller.site()))
+			panic(unsupported("no code and no intrinsic for function %s (called at %s; stack: %s)", name, caller.site(), caller.stack()))
 		}
 		if i.ps != nil {
 			if p := fn.Pkg; p != nil && i.cfg.isUnderTest(p.Pkg.Path()) {
